@@ -60,6 +60,16 @@ int main(int argc, char **argv) {
     for (int i = 0; i < K; ++i) a.async_set((size_t)((i * 5 + me) % 64), (long)i);
   }
   c = g_exec; report("array", c, K);
+  // arrays with fewer elements than ranks, and none: the destructor's barrier is the communicator's, whatever the container holds
+  { ygm::container::array<long> a(world, n > 1 ? (size_t)(n - 1) : 0, 0);
+    for (int i = 0; i < K; ++i) world.async((me + 1 + i) % n, [](long) {}, (long)i);
+    if (n > 1) a.async_set(0, 7);
+  }
+  c = g_exec; report("array_small", c, K);
+  { ygm::container::array<long> a(world, 0, 0);
+    for (int i = 0; i < K; ++i) world.async((me + 2 + i) % n, [](long) {}, (long)i);
+  }
+  c = g_exec; report("array_empty", c, K);
   { ygm::container::counting_set<long> cs(world);
     for (int i = 0; i < K; ++i) cs.async_insert((long)(i % 6 + me));
   }
